@@ -429,6 +429,23 @@ def fam_unfold(v, n):
         elif y < 0.52:
             label, st, _ = v.typed_sid(search=0.5)
             ops.append({"op": "type_narrow", "from": {"s": rng.choice([st, label + ":" + st, st + "?foo=bar"])}})
+    # a CONCRETE Sid whose only search symbol sits in the value of a trailing filter on a DEEPER key (the key of the
+    # next level, shared by several templates): the overlay is a search that fits several types
+    r2 = random.Random("unfold-deeper/%d" % n)
+    for label in v.labels:
+        ks = v.tdict[label]
+        deeper = sorted({v.tdict[l2][len(ks)][0] for l2 in v.labels if len(v.tdict[l2]) > len(ks)
+                         and [k for k, _ in v.tdict[l2][:len(ks)]] == [k for k, _ in ks]})
+        if not deeper:
+            continue
+        vals = [v.value((k, r), concrete_only=True) for k, r in ks]
+        s0 = "/".join(vals)
+        for k2 in deeper[:2]:
+            for sym in ("*", ">"):
+                ops.append({"op": "unfold_search", "s": "%s?%s=%s" % (s0, k2, sym)})
+            ops.append({"op": "unfold_search", "s": "%s?%s=%s&%s=*" % (s0, ks[-1][0], v.value(ks[-1], concrete_only=True), k2)})
+            ops.append({"op": "sid", "s": "%s?%s=*" % (s0, k2)})
+            ops.append({"op": "sid_call", "from": {"s": s0}, "m": "get_with_q", "q": "%s=%s" % (k2, r2.choice(["*", ">"]))})
     for s in ["bla?foo=bar", "hamlet/*/*?type=s", "x:y:z", "hamlet/a/**", "hamlet/**", "hamlet/s/**/ma", "", "hamlet/a/char/**/maya",
               "hamlet/a,s/*", "hamlet/a/char/x/model/v001/w/maya", "hamlet/a/char/x/**/movie?state=p", "hamlet/s/sq001/**/cache"]:
         ops.append({"op": "unfold_search", "s": s})
